@@ -13,7 +13,9 @@
  *            before the threads start so that index `base` is the next message.
  *            lim = how far (in messages) the writers may run ahead of the slowest
  *            unfinished reader; the documented no-lapping precondition is lim <= cap-1.
- *       sched random <seed> | pct <seed> <depth> | replay <tokens...>
+ *       sched random <seed> | pct <seed> <depth> | replay <tokens...> | prefix <tokens...>
+ *            (prefix: replay the tokens, then continue non-preemptively; prints the candidate
+ *             sets, used by vlib.explore_schedules)
  *       run                                  -> schedule, events, end, outcome lines
  *
  * thread programs (every ghost action is glued to the preceding scheduling point):
@@ -110,7 +112,7 @@ static int setup(void)
 	memset(g_done, 0, sizeof g_done);
 	memset(g_got, 0, sizeof g_got);
 	g_bad = 0;
-	g_p = (int)(g_base % (uint32_t)g_cap);
+	g_p = g_once ? 0 : (int)(g_base % (uint32_t)g_cap);   /* read-once ignores the index */
 	/* prefill from the unmanaged main thread: not traced, not scheduled */
 	for (int i = 1; i <= g_p; i++) {
 		payload[i] = MAGIC(i);
@@ -164,7 +166,8 @@ static void vh_op(int argc, char **argv)
 	if (!strcmp(argv[0], "sched") && argc >= 2) {
 		if (!strcmp(argv[1], "random") && argc == 3) { g_pol = 0; g_seed = vh_ull(argv[2]); }
 		else if (!strcmp(argv[1], "pct") && argc == 4) { g_pol = 1; g_seed = vh_ull(argv[2]); g_depth = atoi(argv[3]); }
-		else if (!strcmp(argv[1], "replay")) { g_pol = 2; g_replay[0] = 0; size_t o = 0;
+		else if (!strcmp(argv[1], "replay") || !strcmp(argv[1], "prefix")) {
+			g_pol = !strcmp(argv[1], "prefix") ? 3 : 2; g_replay[0] = 0; size_t o = 0;
 			for (int i = 2; i < argc && o + 16 < sizeof g_replay; i++) o += snprintf(g_replay + o, sizeof g_replay - o, "%s ", argv[i]); }
 		else { printf("bad-op\n"); return; }
 		printf("ok\n");
@@ -174,8 +177,9 @@ static void vh_op(int argc, char **argv)
 		if (setup() != 0) { printf("bad-op\n"); return; }
 		if (g_pol == 0) vs_policy_random(g_seed);
 		else if (g_pol == 1) vs_policy_pct(g_seed, g_depth);
+		else if (g_pol == 3) { vs_policy_prefix(g_replay); vs_trace_enabled(1); }
 		else vs_policy_replay(g_replay);
-		vs_set_max_steps(20000);
+		vs_set_max_steps(8000);
 		vs_run();
 		vs_print(stdout);
 		printf("outcome");
